@@ -69,7 +69,22 @@ func EncodeToStringNoPadding(data []byte) string {
 // This accepts the standard I2P .b32.i2p address format (52 unpadded characters
 // for a 32-byte hash).
 func DecodeStringNoPadding(data string) ([]byte, error) {
+	if err := rejectPaddingByteAlias(data); err != nil {
+		return nil, err
+	}
 	return I2PEncodingNoPadding.DecodeString(data)
+}
+
+// rejectPaddingByteAlias reports an error when an unpadded base32 string contains the byte
+// 0xFF. With padding disabled encoding/base32 stores NoPadding (-1) as its padding rune and
+// compares input bytes with byte(-1) == 0xFF, so that byte is taken for a padding character
+// near the end of the input: decoding stops there, whatever follows is ignored, and a string
+// with a character outside the I2P alphabet is reported as valid.
+func rejectPaddingByteAlias(data string) error {
+	if i := strings.IndexByte(data, 0xFF); i >= 0 {
+		return b32.CorruptInputError(i)
+	}
+	return nil
 }
 
 // EncodeToStringSafe encodes binary data to a base32 string with input validation.
@@ -115,6 +130,9 @@ func DecodeStringSafeNoPadding(data string) ([]byte, error) {
 	}
 	if len(data) > MAX_DECODE_SIZE {
 		return nil, ErrInputTooLarge
+	}
+	if err := rejectPaddingByteAlias(data); err != nil {
+		return nil, err
 	}
 	return I2PEncodingNoPadding.DecodeString(data)
 }
